@@ -1,27 +1,45 @@
-lib/Bytes.vo lib/Bytes.glob lib/Bytes.v.beautified lib/Bytes.required_vo: lib/Bytes.v 
-lib/Bytes.vio: lib/Bytes.v 
-lib/Bytes.vos lib/Bytes.vok lib/Bytes.required_vos: lib/Bytes.v 
-lib/Utf8.vo lib/Utf8.glob lib/Utf8.v.beautified lib/Utf8.required_vo: lib/Utf8.v lib/Bytes.vo
-lib/Utf8.vio: lib/Utf8.v lib/Bytes.vio
-lib/Utf8.vos lib/Utf8.vok lib/Utf8.required_vos: lib/Utf8.v lib/Bytes.vos
 gen/Facts_HTMLEscape.vo gen/Facts_HTMLEscape.glob gen/Facts_HTMLEscape.v.beautified gen/Facts_HTMLEscape.required_vo: gen/Facts_HTMLEscape.v 
 gen/Facts_HTMLEscape.vio: gen/Facts_HTMLEscape.v 
 gen/Facts_HTMLEscape.vos gen/Facts_HTMLEscape.vok gen/Facts_HTMLEscape.required_vos: gen/Facts_HTMLEscape.v 
 gen/Facts_escapers.vo gen/Facts_escapers.glob gen/Facts_escapers.v.beautified gen/Facts_escapers.required_vo: gen/Facts_escapers.v 
 gen/Facts_escapers.vio: gen/Facts_escapers.v 
 gen/Facts_escapers.vos gen/Facts_escapers.vok gen/Facts_escapers.required_vos: gen/Facts_escapers.v 
+gen/Facts_render.vo gen/Facts_render.glob gen/Facts_render.v.beautified gen/Facts_render.required_vo: gen/Facts_render.v 
+gen/Facts_render.vio: gen/Facts_render.v 
+gen/Facts_render.vos gen/Facts_render.vok gen/Facts_render.required_vos: gen/Facts_render.v 
+lib/Bytes.vo lib/Bytes.glob lib/Bytes.v.beautified lib/Bytes.required_vo: lib/Bytes.v 
+lib/Bytes.vio: lib/Bytes.v 
+lib/Bytes.vos lib/Bytes.vok lib/Bytes.required_vos: lib/Bytes.v 
+lib/Utf8.vo lib/Utf8.glob lib/Utf8.v.beautified lib/Utf8.required_vo: lib/Utf8.v lib/Bytes.vo
+lib/Utf8.vio: lib/Utf8.v lib/Bytes.vio
+lib/Utf8.vos lib/Utf8.vok lib/Utf8.required_vos: lib/Utf8.v lib/Bytes.vos
 model/HTMLEscapeM.vo model/HTMLEscapeM.glob model/HTMLEscapeM.v.beautified model/HTMLEscapeM.required_vo: model/HTMLEscapeM.v lib/Bytes.vo gen/Facts_HTMLEscape.vo
 model/HTMLEscapeM.vio: model/HTMLEscapeM.v lib/Bytes.vio gen/Facts_HTMLEscape.vio
 model/HTMLEscapeM.vos model/HTMLEscapeM.vok model/HTMLEscapeM.required_vos: model/HTMLEscapeM.v lib/Bytes.vos gen/Facts_HTMLEscape.vos
 model/HtmlDecode.vo model/HtmlDecode.glob model/HtmlDecode.v.beautified model/HtmlDecode.required_vo: model/HtmlDecode.v lib/Bytes.vo lib/Utf8.vo
 model/HtmlDecode.vio: model/HtmlDecode.v lib/Bytes.vio lib/Utf8.vio
 model/HtmlDecode.vos model/HtmlDecode.vok model/HtmlDecode.required_vos: model/HtmlDecode.v lib/Bytes.vos lib/Utf8.vos
+model/RendererM.vo model/RendererM.glob model/RendererM.v.beautified model/RendererM.required_vo: model/RendererM.v lib/Bytes.vo gen/Facts_render.vo
+model/RendererM.vio: model/RendererM.v lib/Bytes.vio gen/Facts_render.vio
+model/RendererM.vos model/RendererM.vok model/RendererM.required_vos: model/RendererM.v lib/Bytes.vos gen/Facts_render.vos
+model/TCalcM.vo model/TCalcM.glob model/TCalcM.v.beautified model/TCalcM.required_vo: model/TCalcM.v lib/Bytes.vo gen/Facts_render.vo model/RendererM.vo
+model/TCalcM.vio: model/TCalcM.v lib/Bytes.vio gen/Facts_render.vio model/RendererM.vio
+model/TCalcM.vos model/TCalcM.vok model/TCalcM.required_vos: model/TCalcM.v lib/Bytes.vos gen/Facts_render.vos model/RendererM.vos
+model/TSrcM.vo model/TSrcM.glob model/TSrcM.v.beautified model/TSrcM.required_vo: model/TSrcM.v lib/Bytes.vo gen/Facts_render.vo gen/Facts_escapers.vo model/RendererM.vo model/TCalcM.vo
+model/TSrcM.vio: model/TSrcM.v lib/Bytes.vio gen/Facts_render.vio gen/Facts_escapers.vio model/RendererM.vio model/TCalcM.vio
+model/TSrcM.vos model/TSrcM.vok model/TSrcM.required_vos: model/TSrcM.v lib/Bytes.vos gen/Facts_render.vos gen/Facts_escapers.vos model/RendererM.vos model/TCalcM.vos
 proofs/HTMLEscape_proofs.vo proofs/HTMLEscape_proofs.glob proofs/HTMLEscape_proofs.v.beautified proofs/HTMLEscape_proofs.required_vo: proofs/HTMLEscape_proofs.v lib/Bytes.vo gen/Facts_HTMLEscape.vo model/HTMLEscapeM.vo lib/Utf8.vo model/HtmlDecode.vo proofs/HtmlDecode_proofs.vo
 proofs/HTMLEscape_proofs.vio: proofs/HTMLEscape_proofs.v lib/Bytes.vio gen/Facts_HTMLEscape.vio model/HTMLEscapeM.vio lib/Utf8.vio model/HtmlDecode.vio proofs/HtmlDecode_proofs.vio
 proofs/HTMLEscape_proofs.vos proofs/HTMLEscape_proofs.vok proofs/HTMLEscape_proofs.required_vos: proofs/HTMLEscape_proofs.v lib/Bytes.vos gen/Facts_HTMLEscape.vos model/HTMLEscapeM.vos lib/Utf8.vos model/HtmlDecode.vos proofs/HtmlDecode_proofs.vos
 proofs/HtmlDecode_proofs.vo proofs/HtmlDecode_proofs.glob proofs/HtmlDecode_proofs.v.beautified proofs/HtmlDecode_proofs.required_vo: proofs/HtmlDecode_proofs.v lib/Bytes.vo lib/Utf8.vo model/HtmlDecode.vo
 proofs/HtmlDecode_proofs.vio: proofs/HtmlDecode_proofs.v lib/Bytes.vio lib/Utf8.vio model/HtmlDecode.vio
 proofs/HtmlDecode_proofs.vos proofs/HtmlDecode_proofs.vok proofs/HtmlDecode_proofs.required_vos: proofs/HtmlDecode_proofs.v lib/Bytes.vos lib/Utf8.vos model/HtmlDecode.vos
+proofs/Renderer_proofs.vo proofs/Renderer_proofs.glob proofs/Renderer_proofs.v.beautified proofs/Renderer_proofs.required_vo: proofs/Renderer_proofs.v lib/Bytes.vo gen/Facts_render.vo model/RendererM.vo
+proofs/Renderer_proofs.vio: proofs/Renderer_proofs.v lib/Bytes.vio gen/Facts_render.vio model/RendererM.vio
+proofs/Renderer_proofs.vos proofs/Renderer_proofs.vok proofs/Renderer_proofs.required_vos: proofs/Renderer_proofs.v lib/Bytes.vos gen/Facts_render.vos model/RendererM.vos
+props/C05.vo props/C05.glob props/C05.v.beautified props/C05.required_vo: props/C05.v lib/Bytes.vo gen/Facts_render.vo model/RendererM.vo proofs/Renderer_proofs.vo
+props/C05.vio: props/C05.v lib/Bytes.vio gen/Facts_render.vio model/RendererM.vio proofs/Renderer_proofs.vio
+props/C05.vos props/C05.vok props/C05.required_vos: props/C05.v lib/Bytes.vos gen/Facts_render.vos model/RendererM.vos proofs/Renderer_proofs.vos
 props/C24.vo props/C24.glob props/C24.v.beautified props/C24.required_vo: props/C24.v lib/Bytes.vo gen/Facts_HTMLEscape.vo model/HTMLEscapeM.vo model/HtmlDecode.vo proofs/HTMLEscape_proofs.vo
 props/C24.vio: props/C24.v lib/Bytes.vio gen/Facts_HTMLEscape.vio model/HTMLEscapeM.vio model/HtmlDecode.vio proofs/HTMLEscape_proofs.vio
 props/C24.vos props/C24.vok props/C24.required_vos: props/C24.v lib/Bytes.vos gen/Facts_HTMLEscape.vos model/HTMLEscapeM.vos model/HtmlDecode.vos proofs/HTMLEscape_proofs.vos
